@@ -952,7 +952,10 @@ def bit_jaccard(x, y):
         result += popcnt[and_]
         denom += popcnt[or_]
 
-    return -np.log(result / denom)
+    if denom == 0.0:
+        return 0.0
+    else:
+        return -np.log(result / denom)
 
 
 named_distances = {
